@@ -94,6 +94,7 @@ Proof.
     + unfold load_dump. change (nd (start_S e n)) with n. rewrite ST, V. reflexivity.
     + destruct (load_dump_installs e false (start_S e n) sn ST) as (H1 & H2 & H3 & H4 & _).
       { change (nd (start_S e n)) with n. lia. }
+      { discriminate. }
       unfold uview_of. now rewrite H1, H2, H3, H4.
   - unfold load_dump. change (nd (start_S e n)) with n. now rewrite ST.
   - unfold load_dump. change (nd (start_S e n)) with n. now rewrite ST.
@@ -197,7 +198,7 @@ Proof.
     + apply HI. apply andb_prop in DL as [_ LK]. unfold load_dump_ok in LK.
       destruct (stored (sr (nd s7))) as [[sn|]|] eqn:SS; try discriminate.
       apply uview_inv in C7 as (_ & _ & _ & SV).
-      destruct (load_dump_installs e true s7 sn SS ltac:(lia)) as (H1 & H2 & H3 & H4 & H5 & H6 & _).
+      destruct (load_dump_installs e true s7 sn SS ltac:(lia) ltac:(intros _; lia)) as (H1 & H2 & H3 & H4 & H5 & H6 & _).
       cbn zeta in *.
       set (s8 := send_next_idx from None false true (load_dump e true s7)).
       pose proof (view_send_next_idx from None false true (load_dump e true s7)) as V8. fold s8 in V8.
@@ -208,7 +209,8 @@ Proof.
       rewrite X4, X5, X6, X7, X10, X11, H1, H2, H3, H4, (H6 eq_refl).
       repeat split; auto.
       (* the stored blob is untouched by load_dump *)
-      clear -SS. unfold load_dump. rewrite SS.
+      assert (NB : (eidx (s_e1 sn) <=? applied (nd s7)) = false) by lia.
+      clear -SS NB. unfold load_dump. rewrite SS. cbn [andb]. rewrite NB.
       destruct (self_ver (nd s7) <? s_ver sn); auto.
       match goal with |- stored (sr (nd (if dyn (cf e) then update_cluster ?l ?x else ?x))) = _ =>
         assert (E : stored (sr (nd (if dyn (cf e) then update_cluster l x else x))) = stored (sr (nd x))) end.
@@ -216,7 +218,14 @@ Proof.
         match goal with |- stored (sr (nd (update_cluster ?l ?x))) = _ =>
           now destruct (view_inv _ _ (view_update_cluster l x)) as (_ & _ & _ & _ & _ & _ & _ & _ & _ & _ & Y & _) end. }
       rewrite E. cbn. exact SS.
-    + apply HU. now rewrite (view_uview _ _ (view_ae_commit _ _ _)).
+    + apply HU. destruct done; [|now rewrite (view_uview _ _ (view_ae_commit _ _ _))].
+      rewrite (view_uview _ _ (view_ae_commit _ _ _)). rewrite <- C7.
+      (* a complete snapshot that is not loadable (corrupt, newer code version, not ahead of the
+         node's position) leaves the user state alone *)
+      cbn [andb] in DL. clear -DL. unfold load_dump, load_dump_ok in *.
+      destruct (stored (sr (nd s7))) as [[sn|]|]; auto. cbn [andb].
+      destruct (eidx (s_e1 sn) <=? applied (nd s7)); [reflexivity|].
+      cbn [negb andb] in DL. destruct (self_ver (nd s7) <? s_ver sn) eqn:V; [reflexivity|lia].
 Qed.
 
 (* a delivered message either leaves the user state alone or (last chunk of a snapshot whose
